@@ -1,7 +1,8 @@
 """Write seeded/<id>/meta.json from the patch, the confirmation logs and the sweep results."""
 import json, os, re, glob
 ROOT = '/verif/seeded'
-INITIAL_MISS = {'C03-5': 'the parent-version contract (copy appended to the result) was registered under C02 and C04 only',
+INITIAL_MISS = {'C13-6': 'nothing constrained what ends up in the reason phrase of the status line (http.server encodes it as strict latin-1 and writes it verbatim); the bounded requests were ASCII',
+                'C03-5': 'the parent-version contract (copy appended to the result) was registered under C02 and C04 only',
                 'C05-8': 'the reader of element lists (SubElementListProperty.get_py_value_from_node) was not under contract and no bounded instance holds a list that mixes derived types; first reported as undecided (list comprehension over a symbolic list was not modelled)',
                 'C09-6': 'execute_operation was only a callee summary (may return or raise) of the sco contracts; nothing stated that it lets the handler exception through',
                 'C12-10': 'the copy-on-update contract of _update_from_other existed under C01 only; the bounded C12 checks append to members that are non-empty at copy time',
